@@ -405,7 +405,8 @@ def gen_scalar(rng, tier):
     vs = list(range(len(names)))
     f = gen.rand_factor(rng, vs, card)
     return {"names": names, "card": card, "labels": labels, "f": f, "op": rng.choice(["product", "sum"]),
-            "k": rng.choice([0, 1, 2, 3, 5]), "inplace": rng.random() < .5}
+            "k": rng.choice([0, 1, 2, 3, 5, 1.0, 0.0]), "inplace": rng.random() < .5,
+            "form": rng.choice(["method", "op", "rop"]), "then": rng.choice(["normalize", "marginalize", "reduce"])}
 
 
 def run_scalar(case, drv):
@@ -414,18 +415,38 @@ def run_scalar(case, drv):
     sf = snapshot(f)
     k = case["k"]
     mf = gen.factor_model(card, case["f"])
-    const = {"scope": [], "card": [], "vals": [str(k)]}
+    const = {"scope": [], "card": [], "vals": [str(int(k))]}
     rep = drv.call("f_product" if case["op"] == "product" else "f_add", f=mf, g=const)
     if case["inplace"]:
         getattr(f, case["op"])(k, inplace=True)
         res = f
     else:
-        res = getattr(f, case["op"])(k, inplace=False)
+        form = case.get("form", "method")
+        if form == "method":
+            res = getattr(f, case["op"])(k, inplace=False)
+        elif form == "op":
+            res = (f * k) if case["op"] == "product" else (f + k)
+        else:
+            res = (k * f) if case["op"] == "product" else (k + f)
     err = compare_factor(res, rep, names, card, labels)
     if err:
         return fail(f"scalar {case['op']}: {err}")
     if not case["inplace"] and snapshot(f) != sf:
         return fail("scalar op modified its operand out-of-place")
+    if not case["inplace"] and case.get("then"):
+        # the result of an out-of-place operation is a value of its own: a later in-place step on it leaves the operand alone
+        try:
+            if case["then"] == "normalize":
+                res.normalize()
+            elif case["then"] == "marginalize" and len(res.variables) > 1:
+                res.marginalize([res.variables[0]])
+            elif case["then"] == "reduce" and len(res.variables) > 1:
+                v = res.variables[0]
+                res.reduce([(v, res.state_names[v][0])])
+        except Exception:  # the second step is only a probe (e.g. normalising an all-zero table)
+            pass
+        if snapshot(f) != sf:
+            return fail(f"in-place {case['then']} on the result of an out-of-place scalar {case['op']} (k={k!r}, {form}) changed the operand")
     return ok(op=case["op"], inplace=case["inplace"])
 
 
